@@ -12,6 +12,10 @@ pub fn gen14(tier: &str, rng: &mut Rng) -> Vec<Spec> {
     for a in grid { for b in grid { for (i, xs) in small_hists(if t { 6 } else { 5 }).into_iter().enumerate() {
         let (ta, tb) = tf[i % 3];
         v.push(Spec::new("ab").with("alpha", a.show()).with("beta", b.show()).with("a", ta.show()).with("b", tb.show()).with("xs", join_rats(&xs))); } } }
+    // f64: constant signals with non-dyadic gains and values are reproduced bit-exactly (the residual is exactly 0)
+    for (k, c) in [0.3f64, 1234.567, 0.1, -2.2].iter().enumerate() { for (al, be) in [(0.1f64, 0.05f64), (0.9, 0.3), (1.0 / 3.0, 0.7)] {
+        let ex = |x: f64| crate::util::f64_exact(x).unwrap();
+        v.push(Spec::new("ab").with("ty", "f64").with("alpha", ex(al).show()).with("beta", ex(be).show()).with("a", "1").with("b", "0").with("xs", join_rats(&vec![ex(*c); 5 + k]))); } }
     // states injected through FromGuts: non-zero velocity with beta = 0 (or alpha = 0), unreachable from a fresh filter
     for (al, be) in [(Rat::new(1, 2), Rat::int(0)), (Rat::int(0), Rat::new(1, 4)), (Rat::new(1, 4), Rat::new(1, 2)), (Rat::int(1), Rat::int(0))] {
         for v0 in [Rat::int(2), Rat::new(-3, 2)] { for xs in small_hists(if t { 4 } else { 3 }) {
@@ -26,6 +30,13 @@ pub fn gen14(tier: &str, rng: &mut Rng) -> Vec<Spec> {
 pub fn exec14(s: &Spec, stats: &mut Stats) -> Outcome {
     let xs = s.rats("xs"); stats.bump(format!("len:{}", xs.len()));
     let (alpha, beta, a, b) = (s.rat("alpha"), s.rat("beta"), s.rat("a"), s.rat("b"));
+    if s.has("ty") && s.get("ty") == "f64" {
+        stats.bump("ty:f64-constant");
+        let mut f = ViaF64(ab::AlphaBeta::with_config(ab::Config { alpha: alpha.to_f64(), beta: beta.to_f64() }));
+        let (ys, p1) = run_all(&mut f, &xs);
+        let vel = crate::util::f64_exact(f.0.into_guts().1.velocity).unwrap_or(Rat::int(i64::MAX / 16));
+        return Outcome::Case(format!("mk {} {} {} {} {} {} {} {} {} {} {}", cq(&alpha), cq(&beta), cq(&Rat::int(0)), "None", cqlist(&xs), cqlist(&ys), cq(&vel), cq(&a), cq(&b), cqlist(&ys), cbool(p1)));
+    }
     let (v0, x0) = if s.has("v0") { (s.rat("v0"), Some(s.rat("x0"))) } else { (Rat::int(0), None) };
     if x0.is_some() { stats.bump("injected-state"); }
     let mut f = if x0.is_some() { <ab::AlphaBeta<Rat> as signalo_traits::FromGuts>::from_guts((ab::Config { alpha, beta }, ab::State { velocity: v0, value: x0 })) } else { ab::AlphaBeta::with_config(ab::Config { alpha, beta }) };
